@@ -74,6 +74,7 @@ func (c15) Generate(r *core.Rng, run int, tier string) *core.History {
 	g := gen.New(r.Sub("gen"), flags)
 	bg := newBaseGen(g, sessCfgOf(h))
 	n := 2 + r.Intn(7)
+	secondMacro := ""
 	if r.Bool(.3) {
 		// macros defined before use
 		bg.AddFixed([]string{core.Pick(r, []string{
@@ -81,6 +82,12 @@ func (c15) Generate(r *core.Rng, run int, tier string) *core.History {
 			`twice = macro(e) { quote(unquote(e) + unquote(e)) }`,
 			`swapsub = macro(a1, b1) { quote(unquote(b1) - unquote(a1)) }`,
 		})})
+		if r.Bool(.5) {
+			// a second definition directly after the first (adjacent statements when delivered in one go)
+			if bg.AddFixed([]string{`plus1 = macro(e) { quote(unquote(e) + 1) }`}) {
+				secondMacro = "plus1"
+			}
+		}
 	}
 	for i := 0; i < n; i++ {
 		if len(bg.Inputs) > 0 && strings.Contains(bg.Inputs[0][0], "macro(") && r.Bool(.4) {
@@ -93,6 +100,10 @@ func (c15) Generate(r *core.Rng, run int, tier string) *core.History {
 			default:
 				bg.AddFixed([]string{fmt.Sprintf(`println(swapsub(%d, %d + 1))`, r.Intn(9), r.Intn(9))})
 			}
+			continue
+		}
+		if secondMacro != "" && r.Bool(.3) {
+			bg.AddFixed([]string{fmt.Sprintf(`println(plus1(%d * 3))`, r.Intn(9))})
 			continue
 		}
 		bg.Add(1)
